@@ -9,6 +9,7 @@ from ..protocol.messages.json_rpc_message import (
 )
 from ..protocol.types.info import ServerInfo
 from ..protocol.types.capabilities import ServerCapabilities
+from ..protocol.types.versioning import CURRENT_VERSION, SUPPORTED_VERSIONS
 from .session.memory import SessionManager
 
 
@@ -82,6 +83,10 @@ class ProtocolHandler:
         params = getattr(message, "params", None) or {}
         client_info = params.get("clientInfo", {})
         protocol_version = params.get("protocolVersion", "2025-03-26")
+        if protocol_version not in SUPPORTED_VERSIONS:
+            # Never acknowledge a version we do not support (or a malformed one):
+            # answer with the latest version we do support and let the client decide.
+            protocol_version = CURRENT_VERSION
 
         # Create session
         new_session_id = self.session_manager.create_session(
